@@ -901,7 +901,9 @@ func ctrlSpecs() []spec {
 		{"reject.req(data)", func() *hsms.ControlMessage {
 			return hsms.NewRejectReq(must(hsms.NewDataMessage(1, 1, true, 5, sys, secs2.A("x"))), hsms.RejectNotSelected)
 		}},
-		{"reject.req(raw)", func() *hsms.ControlMessage { return hsms.NewRejectReqRaw(0x4444, 3, 8, sys, hsms.RejectPTypeNotSupported) }},
+		{"reject.req(raw)", func() *hsms.ControlMessage {
+			return hsms.NewRejectReqRaw(0x4444, 3, 8, sys, hsms.RejectPTypeNotSupported)
+		}},
 	}
 	for _, fc := range factories {
 		fc := fc
